@@ -158,10 +158,21 @@ AFFINITY[130] = AFFINITY[129]
 REQ_FUNCS = [1, 1, 2, 2, 2, 3, 4, 5, 5, 6, 7, 8, 9, 10, 11, 12, 20, 21, 22, 22, 25, 26, 27, 28, 29, 30]
 
 
+def utf8_stripes(rng, maxlen=255):
+    """a long string in which almost every octet offset falls INSIDE a multi-byte character: a short ASCII
+    prefix, then one character of 2, 3 or 4 octets repeated (whatever offset a formatter cuts at, it is not
+    a character boundary for two of three such strings; seeded change R5_g: log output sliced at octet 48)"""
+    ch = rng.choice(["\u00fc", "\u00df", "\u20ac", "\u65e5", "\U0001f600", "\U00010348"]).encode("utf-8")
+    pre = bytes(rng.range(0x41, 0x5A) for _ in range(rng.below(4)))
+    n = rng.choice([12, 20, 30, 60, (maxlen - len(pre)) // len(ch)])
+    return (pre + ch * n)[:maxlen - (maxlen - len(pre)) % len(ch)] if len(pre) + len(ch) * n > maxlen else pre + ch * n
+
+
 def valid_attr(rng):
-    t = rng.choice([1, 2, 3, 4, 5, 6, 7, 254, 255])
+    t = rng.choice([1, 1, 2, 3, 4, 5, 6, 7, 254, 255])
     if t == 1:
-        body = rng.choice([b"", b"HELLO", "gr\u00fc\u00df".encode(), bytes(rng.range(0x20, 0x7E) for _ in range(rng.choice([1, 40, 255])))])
+        body = rng.choice([b"", b"HELLO", "gr\u00fc\u00df".encode(), bytes(rng.range(0x20, 0x7E) for _ in range(rng.choice([1, 40, 255]))),
+                           utf8_stripes(rng), utf8_stripes(rng), utf8_stripes(rng)])
     elif t in (2, 3): body = rng.bytes(rng.choice([1, 2, 4]))
     elif t == 4: body = rng.bytes(rng.choice([4, 8]))
     elif t in (5, 6): body = rng.bytes(rng.choice([0, 1, 7, 255]))
@@ -174,7 +185,8 @@ def valid_attr(rng):
 
 
 def valid_free(rng, v):
-    name = rng.choice([b"", b"a", b"file.txt", "\u00e9t\u00e9".encode(), bytes(rng.range(0x20, 0x7E) for _ in range(rng.range(1, 30)))])
+    name = rng.choice([b"", b"a", b"file.txt", "\u00e9t\u00e9".encode(), bytes(rng.range(0x20, 0x7E) for _ in range(rng.range(1, 30))),
+                       utf8_stripes(rng, 90), utf8_stripes(rng, 200)])
     if v == 2:
         p = rng.choice([b"", b"pw"])
         return D.le(12, 2) + D.le(len(name), 2) + D.le(12 + len(name), 2) + D.le(len(p), 2) + rng.bytes(4) + name + p
@@ -844,6 +856,25 @@ class C01(ost.OutstationProp):
                 for lvl in range(4):
                     ops.append(("display", lvl, hexs(b)))
             out.append(Case(sid, script_text(sid, "app", {"zls": rng.below(2)}, ops), {"engine": "app", "kind": "parse-display"}))
+        # well-formed fragments whose TEXT is what is hostile: device attributes (g0) with long strings of multi-byte
+        # characters, rendered at every decode level (the formatter of the log output is code the peer's bytes reach)
+        for i in range(max(8, n // 5)):
+            sid = "c01_at_%d" % i
+            ops = []
+            for _ in range(rng.range(2, 4)):
+                body = bytes([1, 0]) + b""      # placeholder, replaced below
+                txt = utf8_stripes(rng)
+                var = rng.choice([196, 211, 240, 245, 246, 247, 252, 255 - 1])
+                idx = rng.below(256)
+                obj = bytes([0, var, 0x00, idx, idx, 1, len(txt)]) + txt
+                if rng.chance(1, 2):
+                    b = bytes([ost.ctl(rng.below(16)), 2]) + obj; mode = "req"
+                else:
+                    b = bytes([M.ctrl(True, True, False, False, rng.below(16)), 0x81, 0, 0]) + obj; mode = "resp"
+                ops.append(("parse", mode, hexs(b)))
+                for lvl in range(4):
+                    ops.append(("display", lvl, hexs(b)))
+            out.append(Case(sid, script_text(sid, "app", {"zls": 0}, ops), {"engine": "app", "kind": "attr-text"}))
         return out
 
     # ---- (iv) master ---------------------------------------------------------------------------------------
